@@ -1287,7 +1287,7 @@ func whoMayRemoveRule(p *core.Prog, r *core.Report, rule string) {
 // spelling of the path and looked for under the raw one is not found by Close, and the collection
 // runs under the copy.
 func c08R12(p *core.Prog, r *core.Report, rule string) {
-	r.Rule(rule, "one key per layout: every lookup, update and delete on the GC bookkeeping map of scheme/ocidir builds its key the same way (all from the reference's path field directly, or all through the same function) — sibling agreement between GCLock, GCUnlock, the dirty marker and Close", 3)
+	r.Rule(rule, "one key per layout: every lookup, update and delete on the GC bookkeeping map of scheme/ocidir builds its key the same way (all from the reference's path field directly, or all through the same function) — sibling agreement between GCLock, GCUnlock, the dirty marker and Close", 1)
 	gf := findGCFields(p)
 	if gf == nil {
 		r.MissingAnchor(rule, ocidirRel+" GC bookkeeping map")
@@ -1405,11 +1405,38 @@ func c08R13(p *core.Prog, r *core.Report) {
 		r.MissingAnchor(rule, ocidirRel+".(*OCIDir).Close")
 		return
 	}
-	class := func(v ssa.Value) string {
+	var hasBlobs func(v ssa.Value, depth int) bool
+	hasBlobs = func(v ssa.Value, depth int) bool {
 		for _, l := range pathLeaves(v) {
 			if s, ok := core.ConstString(l); ok && s == "blobs" {
-				return "blobs"
+				return true
 			}
+			// a directory handed to a helper as a parameter: what its callers in the package pass
+			if pr, ok := l.(*ssa.Parameter); ok && depth < 3 && pr.Parent() != nil {
+				idx := -1
+				for i, q := range pr.Parent().Params {
+					if q == pr {
+						idx = i
+					}
+				}
+				for _, caller := range pkgFuncs(p, ocidirRel) {
+					found := false
+					core.Calls(caller, func(c ssa.CallInstruction) {
+						if core.CalleeFn(c) == pr.Parent() && idx >= 0 && idx < len(c.Common().Args) && hasBlobs(c.Common().Args[idx], depth+1) {
+							found = true
+						}
+					})
+					if found {
+						return true
+					}
+				}
+			}
+		}
+		return false
+	}
+	class := func(v ssa.Value) string {
+		if hasBlobs(v, 0) {
+			return "blobs"
 		}
 		return "top"
 	}
